@@ -59,6 +59,31 @@ mod harnesses {
         match op { 0 => a + b, 1 => a - b, 2 => a * b, 3 => a * b * s, 4 => a / s, _ => (a + b) / 2.0 }
     }
 
+    // ---------------------------------------------------------------- F1: the float laws the Verus units assume, over ALL bit patterns
+    fn same_bits_or_nan(a: f32, b: f32) -> bool { a.to_bits() == b.to_bits() || (a.is_nan() && b.is_nan()) }
+    // (a*b == b*a is NOT put to CBMC: commutativity of a 24x24-bit multiplier is a classic hard SAT instance - it stays an assumed IEEE law)
+    // @harness f1_add_comm props=C01,C02,C03,C15 tier=quick kind=complete flags="--no-overflow-checks" what="a+b == b+a bit-for-bit (NaN == NaN), all f32 pairs" timeout=600
+    #[kani::proof]
+    fn f1_add_comm() {
+        let a: f32 = kani::any();
+        let b: f32 = kani::any();
+        assert!(same_bits_or_nan(a + b, b + a));
+        kani::cover!(a.is_nan());
+        kani::cover!(a > b);
+    }
+    // @harness f1_order_and_unit props=C01,C02 tier=quick kind=complete flags="--no-overflow-checks" what="x*(1.0/1.0) == x bit-for-bit; `>` transitive and irreflexive; all f32 (NaN included)" timeout=600
+    #[kani::proof]
+    fn f1_order_and_unit() {
+        let a: f32 = kani::any();
+        let b: f32 = kani::any();
+        let c: f32 = kani::any();
+        assert!(same_bits_or_nan(a * (1.0f32 / 1.0f32), a));
+        assert!(!(a > b && b > c) || a > c);
+        assert!(!(a > a));
+        kani::cover!(a > b && b > c);
+        kani::cover!(a.is_nan());
+    }
+
     // ---------------------------------------------------------------- C15: element-wise ops, every rank
     macro_rules! elementwise {
         ($name:ident, $op:expr, $rank:expr, $uw:expr) => {
